@@ -388,7 +388,14 @@ def run_case(cd: CaseDef, params, case_id):
             apis.append(api)
             it.attr_hooks, it.call_hooks, it.contracts = [], [], {}
             it.depth = 0
-            return cd.fn(api, *params)
+            try:
+                return cd.fn(api, *params)
+            except (IndexError, AssertionError, KeyError, AttributeError, TypeError, ValueError) as e:
+                # the value produced by the code does not have the structure the contract addresses (rank,
+                # field, kind): an obligation in its own right -- decided by replaying on the real code
+                tb = traceback.format_exc()
+                ctx.prove(f"{case_id}:result_has_expected_structure", z3.BoolVal(False), {"exception": tb[-1500:]})
+                return None
 
         try:
             results = explore(run, max_paths=cd.max_paths, time_budget=cd.timeout * 0.6)
